@@ -230,7 +230,7 @@ var rsaBits = map[string]int{"RSA-1024": 1024, "RSA-2048": 2048, "RSA-4096": 409
 
 // public key of the named algorithm from SubjectPublicKey bits; also checks the size the name promises
 func pubFromBits(keyAlg string, bits []byte) (crypto.PublicKey, error) {
-	if n, ok := rsaBits[keyAlg]; ok {
+	if n, ok := rsaBits[keyAlg]; ok || keyAlg == "RSA-*" {
 		var pk struct {
 			N *big.Int
 			E int
@@ -238,7 +238,7 @@ func pubFromBits(keyAlg string, bits []byte) (crypto.PublicKey, error) {
 		if _, err := asn1.Unmarshal(bits, &pk); err != nil {
 			return nil, err
 		}
-		if pk.N.BitLen() != n {
+		if keyAlg != "RSA-*" && pk.N.BitLen() != n {
 			return nil, fmt.Errorf("modulus has %d bits, configured %s", pk.N.BitLen(), keyAlg)
 		}
 		return &rsa.PublicKey{N: pk.N, E: pk.E}, nil
@@ -586,6 +586,9 @@ func selfChecks(tag string, e entity, issuer *entity, o *observed, obs map[strin
 	if issuer != nil {
 		io := obs[issuer.name]
 		signerAlg, signerBits, wantIssuer = issuer.cfg.KeyAlg, io.spkiBits, io.subject
+		if issuer.artifact != nil && strings.HasPrefix(signerAlg, "RSA-") {
+			signerAlg = "RSA-*" // a key another tool wrote: the configured name says nothing about its size
+		}
 		if issuer.cfg.Manip.Pk != "" || issuer.cfg.Manip.PkAlg != "" {
 			return // issuer certificate carries a manipulated key: chain statements do not apply
 		}
